@@ -536,6 +536,9 @@ def regen(chk):
     chk.extra["translation"] = {"apply_time_range_*": "ok" if text else "unavailable: " + err}
     if err:
         chk.notes.append("translation of the time-range functions unavailable (%s): tied by correspondence only" % err)
+    else:
+        import transval
+        transval.validate(chk, ["TimeRange"])
 
 
 def run(chk):
